@@ -4,7 +4,40 @@ package raft
 // handlers of master and curator) assemble a real in-process Raft group on the mem transport wrapped by the
 // repository's own fault injectors. Nothing here changes the behaviour of the package.
 
-import "time"
+import (
+	"sync"
+	"time"
+)
+
+// VerifSnapOnce sits between the repo's msgDuplicator and msgDropper and lets every InstallSnapshot message object
+// through only once. The mem transport hands message POINTERS to the receiver, and core.HandleMsg closes
+// InstallSnapshot.Body after processing it, so a pointer-duplicate of that message would be read after Close
+// (nil dereference in memSnapshotReader.Read) - an artifact of duplicating pointers that no serialising transport
+// has. All other messages are duplicated as the repo's duplicator decides.
+type VerifSnapOnce struct {
+	lower Transport
+	mu    sync.Mutex
+	seen  map[*InstallSnapshot]bool
+}
+
+func NewVerifSnapOnce(lower Transport) *VerifSnapOnce {
+	return &VerifSnapOnce{lower: lower, seen: map[*InstallSnapshot]bool{}}
+}
+func (t *VerifSnapOnce) Addr() string        { return t.lower.Addr() }
+func (t *VerifSnapOnce) Receive() <-chan Msg { return t.lower.Receive() }
+func (t *VerifSnapOnce) Close() error        { return t.lower.Close() }
+func (t *VerifSnapOnce) Send(m Msg) {
+	if s, ok := m.(*InstallSnapshot); ok {
+		t.mu.Lock()
+		dup := t.seen[s]
+		t.seen[s] = true
+		t.mu.Unlock()
+		if dup {
+			return
+		}
+	}
+	t.lower.Send(m)
+}
 
 type VerifCluster struct {
 	Nodes    []*Raft
@@ -22,7 +55,7 @@ func VerifNewCluster(cfgs []Config, dropP, dupP, reorderP float32, reorderMax ti
 		mem := NewMemTransport(TransportConfig{Addr: rc.ID, MsgChanCap: 1024}).(*memTransport)
 		mems = append(mems, mem)
 		dr := NewMsgDropper(mem, seed+int64(3*i), dropP).(*msgDropper)
-		du := NewMsgDuplicator(dr, 20, dupP, seed+int64(3*i+1)).(*msgDuplicator)
+		du := NewMsgDuplicator(NewVerifSnapOnce(dr), 20, dupP, seed+int64(3*i+1)).(*msgDuplicator)
 		if reorderMax <= 0 {
 			reorderMax = time.Millisecond
 		}
